@@ -46,4 +46,12 @@ ENTRIES = {
     text="Grammar-based Hypothesis generation of well-formed TUM/KITTI/EuRoC/transform files (float spellings, comments, BOM, CRLF, final newline, path/handle) whose loaded numbers must equal float(token) in the right slots and whose pose matrices must follow the (w,x,y,z) convention of an independent conversion; files written by evo are parsed by a strict independent parser; malformed files with one injected defect class at a drawn row/column (and invalid transforms) must raise FileInterfaceException and nothing else.",
     design_ref="5/C07", technique="grammar-based property testing (Hypothesis) against an independent strict parser/writer; defect injection",
     note="GREY inputs (nan/inf/underscore/non-ASCII digit tokens, CSV quoting, bare CR) are not judged either way."),
+ "C08": dict(
+    text="Hypothesis rule-based state machine over the trajectory operation alphabet (left/right/propagating transforms, Sim(3), scale, index reduction, down-sampling, motion filter, time crop, alignment, origin alignment, projection, deepcopy) interleaved with reads of exactly one view or derived quantity; a reference pose model is compared after every step with the caches that exist at that moment (without materialising the others), and with all views plus evo's check() at the end; plus exhaustive enumeration of all sequences to depth 3 (thorough 4) over 17 representative operations x storage mode x timestamps x pre-read view.",
+    design_ref="5/C08", technique="stateful model-based testing (Hypothesis RuleBasedStateMachine) + bounded exhaustive history enumeration against a reference pose model",
+    note="Orientation/position tolerance 1e-9 relative, widened by eps (2n)^k/k! for k drift propagations (histories whose bound exceeds 1e-7 are not explored); after projection the model adopts evo's heading."),
+ "C14": dict(
+    text="Every heading on a 1 degree (quick) / 0.1 degree (thorough) grid over (-180,180] x three planes enumerated for planar poses, plus Hypothesis-drawn planar and general 3-D trajectories (gimbal lock, both storage modes, pre-read views, timestamps): zero out-of-plane coordinate, bit-identical in-plane coordinates, pure rotation about the normal in matrix and quaternion views, valid poses, count/order/timestamps kept, planar poses unchanged, second projection refused.",
+    design_ref="5/C14", technique="exhaustive heading grid + property-based testing (Hypothesis) with projection predicates",
+    note="Known finding KF-C14-1 (xz plane, |heading| > 90 deg) is matched per failing case by plane, heading class and observed mirrored heading; everything else is still reported."),
 }
